@@ -350,6 +350,10 @@ struct Case {
     /// (they must yield the same items: `read` has no cap on the total input size)
     #[serde(default)]
     long_mib: u32,
+    /// > 0: not a document case but a document whose root is a sequence of small structs
+    /// (code = violated item, leading comment lines, entry point)
+    #[serde(default)]
+    root_seq: u16,
 }
 fn yes() -> bool {
     true
@@ -1806,7 +1810,7 @@ fn case_s(eps: Vec<Ep>, keys: &'static [&'static str], rates: Vec<u32>) -> impl 
             let n = if ep.stream() { 4 } else { 1 };
             // in a stream some documents pass and some fail
             let doc = prop_oneof![3 => doc_s(pbad, keys), 1 => doc_s(0, keys)];
-            prop::collection::vec(doc, 1..=n).prop_map(move |docs| Case { krate, ep, opt, layout: layout.clone(), docs, strict, long_mib: 0 })
+            prop::collection::vec(doc, 1..=n).prop_map(move |docs| Case { krate, ep, opt, layout: layout.clone(), docs, strict, long_mib: 0, root_seq: 0 })
         })
 }
 
@@ -1816,6 +1820,59 @@ struct LongDoc {
     #[validate(range(min = 0))]
     a: i64,
 }
+#[derive(Deserialize, garde::Validate, validator::Validate, Debug, PartialEq)]
+#[serde(rename_all = "camelCase")]
+struct RsItem {
+    #[garde(length(min = 2))]
+    #[validate(length(min = 2))]
+    first_name: String,
+    #[garde(range(min = 0))]
+    #[validate(range(min = 0))]
+    age: i64,
+}
+/// a document whose root is a sequence of structs, one of them with a violated field: the issue
+/// is located at that field's value (both crates, str and reader entry points)
+fn check_root_seq(krate: Krate, code: u16) -> Outcome {
+    let bad_item = (code % 3) as usize;
+    let lead = ((code / 3) % 3) as usize;
+    let bad_field = ((code / 9) % 2) as usize; // 0: firstName too short, 1: age negative
+    let reader = (code / 18) % 2 == 1;
+    let mut text = String::new();
+    for i in 0..lead {
+        text.push_str(&format!("# lead {i}\n"));
+    }
+    let mut want = (0u64, 0u64);
+    for i in 0..3 {
+        let name = if i == bad_item && bad_field == 0 { "a" } else { "okay" };
+        let age = if i == bad_item && bad_field == 1 { "-5" } else { "30" };
+        let l1 = format!("- firstName: {name}\n");
+        let l2 = format!("  age: {age}\n");
+        let line = (lead + 2 * i + 1) as u64;
+        if i == bad_item {
+            want = if bad_field == 0 { (line, 14) } else { (line + 1, 8) };
+        }
+        text.push_str(&l1);
+        text.push_str(&l2);
+    }
+    let err = match (krate, reader) {
+        (Krate::Garde, false) => serde_saphyr::from_str_valid::<Vec<RsItem>>(&text).err(),
+        (Krate::Garde, true) => serde_saphyr::from_reader_valid::<_, Vec<RsItem>>(std::io::Cursor::new(text.as_bytes())).err(),
+        (Krate::Validator, false) => serde_saphyr::from_str_validate::<Vec<RsItem>>(&text).err(),
+        (Krate::Validator, true) => serde_saphyr::from_reader_validate::<_, Vec<RsItem>>(std::io::Cursor::new(text.as_bytes())).err(),
+    };
+    let Some(e) = err else {
+        return Outcome::Fail(format!("a violated field in a root sequence is accepted ({krate:?}, text {text:?})"));
+    };
+    let got = e.without_snippet().location().map(|l| (l.line(), l.column()));
+    if got != Some(want) {
+        return Outcome::Fail(format!(
+            "root sequence of structs ({krate:?}, reader {reader}): the issue is located at {got:?}, the violated value is at {want:?}; message {:?} (text {text:?})",
+            e.without_snippet().to_string().lines().next().unwrap_or("")
+        ));
+    }
+    Outcome::Pass
+}
+
 /// `n` copies of one small document, produced on the fly
 struct Repeat {
     unit: &'static [u8],
@@ -1920,6 +1977,9 @@ impl Property for C18 {
         if c.long_mib > 0 {
             return check_long_stream(c.krate, c.long_mib);
         }
+        if c.root_seq > 0 {
+            return check_root_seq(c.krate, c.root_seq - 1);
+        }
         match check_case(c) {
             Verdict::Pass => Outcome::Pass,
             Verdict::Fail(m) => Outcome::Fail(m),
@@ -1938,7 +1998,7 @@ impl Property for C18 {
         for i in 0..n_leaves(&d) {
             violate(&mut d, i, &How::Direct);
         }
-        let c = Case { krate: Krate::Garde, ep: Ep::Str, opt: OptV::Default, layout: base_layout(), docs: vec![d], strict: true, long_mib: 0 };
+        let c = Case { krate: Krate::Garde, ep: Ep::Str, opt: OptV::Default, layout: base_layout(), docs: vec![d], strict: true, long_mib: 0, root_seq: 0 };
         let r = render(&c);
         for k in [Krate::Garde, Krate::Validator] {
             let a: BTreeSet<String> = violations(&r.docs[0].model, k).iter().map(|s| strip_raw(s)).collect();
@@ -1967,7 +2027,7 @@ impl Property for C18 {
         let keys: &[&str] = if collide { &COLLIDE_KEYS } else { &KEYS };
         let n = if ep.stream() { 1 + b.below(4) } else { 1 };
         let docs = (0..n).map(|_| doc_b(&mut b, keys)).collect();
-        let c = Case { krate, ep, opt, layout, docs, strict, long_mib: 0 };
+        let c = Case { krate, ep, opt, layout, docs, strict, long_mib: 0, root_seq: 0 };
         let nt = count_classes(&RefCell::new(BTreeMap::new()), &c);
         Some(("fuzz-documents", c, nt))
     }
@@ -1976,11 +2036,21 @@ impl Property for C18 {
         // `read` has no such cap, so the validating iterators must not have one either
         for (i, krate) in [Krate::Garde, Krate::Validator].into_iter().enumerate() {
             if ctx.mine(3 + 5 * i as u64) {
-                let c = Case { krate, ep: Ep::Str, opt: OptV::Default, layout: base_layout(), docs: vec![], strict: true, long_mib: 260 };
+                let c = Case { krate, ep: Ep::Str, opt: OptV::Default, layout: base_layout(), docs: vec![], strict: true, long_mib: 260, root_seq: 0 };
                 ctx.case("long-stream", &c, true);
             }
         }
         ctx.subspace("streams of 260 MiB of small valid documents x 2 validation crates", 2, true);
+        // --- the root of the document is a sequence of structs
+        for krate in [Krate::Garde, Krate::Validator] {
+            for code in 0..36u16 {
+                if ctx.mine(7 + code as u64) {
+                    let c = Case { krate, ep: Ep::Str, opt: OptV::Default, layout: base_layout(), docs: vec![], strict: true, long_mib: 0, root_seq: code + 1 };
+                    ctx.case("root-sequence", &c, true);
+                }
+            }
+        }
+        ctx.subspace("root sequence of 3 structs x violated item x violated field x 0-2 leading lines x str / reader x 2 crates", 72, true);
         let classes: RefCell<BTreeMap<String, u64>> = RefCell::new(BTreeMap::new());
         // --- enumerated: one violated leaf of a fixed document x supply x entry point x crate x style
         let base = base_doc();
@@ -2024,7 +2094,7 @@ impl Property for C18 {
                             let mut layout = base_layout();
                             layout.crlf = leaf % 2 == 1;
                             layout.cmt_every = (style * 2) % 5;
-                            let c = Case { krate, ep, opt: OptV::Default, layout, docs, strict: true, long_mib: 0 };
+                            let c = Case { krate, ep, opt: OptV::Default, layout, docs, strict: true, long_mib: 0, root_seq: 0 };
                             let nt = count_classes(&classes, &c);
                             ctx.case("one-violated-leaf", &c, nt);
                         }
@@ -2048,7 +2118,7 @@ impl Property for C18 {
                 let ep = EPS[(a + 2 * b) % 7];
                 let krate = if (a + b) % 2 == 0 { Krate::Garde } else { Krate::Validator };
                 let docs = if ep.stream() { vec![d.clone(), base.clone(), d] } else { vec![d] };
-                let c = Case { krate, ep, opt: OptV::Default, layout: base_layout(), docs, strict: true, long_mib: 0 };
+                let c = Case { krate, ep, opt: OptV::Default, layout: base_layout(), docs, strict: true, long_mib: 0, root_seq: 0 };
                 let nt = count_classes(&classes, &c);
                 ctx.case("two-violated-leaves", &c, nt);
                 if !signatures_of(&c).is_empty() {
@@ -2077,7 +2147,7 @@ impl Property for C18 {
 }
 
 fn signatures_of(c0: &Case) -> Vec<&'static str> {
-    if c0.long_mib > 0 {
+    if c0.long_mib > 0 || c0.root_seq > 0 {
         return vec![];
     }
     let c = norm(c0);
@@ -2128,6 +2198,9 @@ fn signatures_of(c0: &Case) -> Vec<&'static str> {
 }
 
 fn shrink_case(c0: &Case) -> Vec<Case> {
+    if c0.root_seq > 0 {
+        return vec![];
+    }
     if c0.long_mib > 0 {
         return if c0.long_mib > 257 { vec![Case { long_mib: 257, ..c0.clone() }] } else { vec![] };
     }
@@ -2293,7 +2366,7 @@ fn named_case(name: &str) -> Option<Case> {
     d.items.clear();
     d.by_name.clear();
     d.net.back_ups.clear();
-    let mut c = Case { krate: Krate::Garde, ep: Ep::Str, opt: OptV::Default, layout: base_layout(), docs: vec![], strict: true, long_mib: 0 };
+    let mut c = Case { krate: Krate::Garde, ep: Ep::Str, opt: OptV::Default, layout: base_layout(), docs: vec![], strict: true, long_mib: 0, root_seq: 0 };
     match name {
         "snippet_region_off_by_one" => {
             // port-no on line 4 (reported first) and type on line 7
